@@ -94,7 +94,7 @@ def run(c):
     if rc != 0:
         gen_fail = (gen_fail or "") + " gen/keymaps.py failed: " + out[-400:]
     # P
-    audit = vlib.lean_audit("C01")
+    audit = vlib.lean_audit("C01", extra_mods=("RimeModel.Props.C01History",))
     if gen_fail:
         audit["ok"] = False
         audit["failures"].append(("translator", gen_fail))
@@ -169,6 +169,48 @@ def run(c):
         small = sc.ddmin(ops, crashes_with, budget=40) if crashes_with(ops) else ops
         c.report("C01:crash:%s" % fr, "API history crashes / trips a sanitizer / hangs in %s on %s" % (fr, sid),
                  {"kind": "impl-violation", "mode": "fuzz", "schema": sid, "table": rows, "ops": small, "log": out[-2500:]})
+
+    # ---- (1a') the commit history: the real CommitHistory and its port (RimeModel/C01/History.lean) on the same call sequences,
+    # state compared after every call, AddressSanitizer watching the record pointer of Push(composition)
+    hexe, _ = vlib.build_harness("hist_harness", "san", ["hist_harness.cc"])
+    rc_l, out_l = vlib.lake_build(["driver_hist"])
+    hops = c1.history_directed() + c1.gen_history_ops(random.Random(seed0 * 7919 + 5), 1500 if quick else 30000)
+    hp = os.path.join(c.work, "hist.ops")
+    with open(hp, "w") as f:
+        f.write("\n".join(hops) + "\n")
+    rc_h, out_h = vlib.sh([hexe, hp], env=vlib.SAN_ENV, timeout=1200)
+    model_lines = vlib.run_driver("driver_hist", "\n".join(hops) + "\n").splitlines() if rc_l == 0 else []
+    impl_lines = [l for l in out_h.splitlines() if l.startswith(("repr=", "bad-op"))]
+    stats["history_ops"] = len(hops)
+    stats["history_compositions_rotating"] = sum(1 for o in hops if o.startswith("comp ") and o.count(";") >= 20)
+    hdiff = None
+    for k, o in enumerate(hops):
+        il = impl_lines[k] if k < len(impl_lines) else "<no output: the process died>"
+        ml = model_lines[k] if k < len(model_lines) else "<no model output>"
+        if il != ml:
+            hdiff = (k, o, il, ml)
+            break
+    if rc_h != 0 or hdiff:
+        stats["crashes"] += 1 if rc_h != 0 else 0
+        k = hdiff[0] if hdiff else len(impl_lines)
+        # the call sequence since the last reset, shrunk
+        start = max([j for j in range(k + 1) if hops[j] == "reset"] or [0])
+        seq = hops[start:k + 1]
+
+        def bad(t):
+            with open(hp, "w") as f:
+                f.write("\n".join(t) + "\n")
+            r2, o2 = vlib.sh([hexe, hp], env=vlib.SAN_ENV, timeout=300)
+            i2 = [l for l in o2.splitlines() if l.startswith(("repr=", "bad-op"))]
+            m2 = vlib.run_driver("driver_hist", "\n".join(t) + "\n").splitlines()
+            return r2 != 0 or i2 != m2[:len(t)]
+        small = sc.ddmin(seq, bad, budget=60) if bad(seq) else seq
+        if rc_h != 0:
+            c.report("C01:crash:%s" % frame_of(out_h), "a call sequence on the commit history trips a sanitizer / crashes in %s" % frame_of(out_h),
+                     {"kind": "impl-violation", "mode": "history", "ops": small, "log": out_h[-2500:]})
+        else:
+            c.report("C01:correspondence:commit-history", "the commit history and its model disagree after `%s`: impl %s, model %s" % (hdiff[1][:80], hdiff[2][:200], hdiff[3][:200]),
+                     {"kind": "correspondence", "mode": "history", "ops": small, "impl": hdiff[2], "model": hdiff[3]}, no_input=True)
 
     # ---- (1b) structured histories of the session checks (same generator as C02), crash = C01 violation
     sexe = sc.build()
